@@ -66,6 +66,19 @@ CLAIMED.update({
    design='5/C16'),
 })
 
+CLAIMED.update({
+ 'C13': dict(
+   technique='Lean 4 proof: invariants over every sink obeying the write_all contract, every fault schedule and every chunking (prefix, result, exact count), the std write_all loop against arbitrary schedules, the budget sink for every failure position; correspondence with a faulty std::io::Write and a buffer-protecting allocator',
+   text='Kernel-checked: writeAll_contract (std write_all over any schedule of short writes / Interrupted / failures takes a prefix and succeeds only if it took everything), runSink_prefix (for every sink, schedule and chunking the accepted bytes are a prefix of the fault-free output), runSink_ok (success only if everything was accepted and flushed, with the exact count), split_ok (sinks that split or retry receive exactly the fault-free bytes), budget_run (failure after k accepted bytes, for every k and chunking: exactly the first k bytes, write error iff k < len or flush fails), slice_no_free (ownership ledger of the &[T] serializer). The run drives the real serializer through a faulty Write (failure at k, per-call caps, Interrupted, flush failure, BufWriter over /dev/full), compares result and accepted bytes with the model, checks the source afterwards, and serializes &[T] / Wrap<&[T]> while the global allocator protects the borrowed buffer and records any attempt to free it.',
+   note='memory safety is represented by the ledger and measured by the protecting allocator (partial); sinks are assumed to obey the Write contract.',
+   design='5/C13'),
+ 'C14': dict(
+   technique='Lean 4 proof: chunking invariance of the std read_exact loop for every progressing schedule (well-founded induction), reader failure reduced to the truncation theorem; correspondence with fragmenting / failing std::io::Read implementations',
+   text='Kernel-checked: readExact_chunk_invariant (read_exact over any schedule of short reads and Interrupted delivers exactly the next n bytes, or fails when they are not available), rfail_result (a source failing at any position k before the end makes deserialize_full return ReadError: it delivers exactly the k-byte prefix, C11), chunk_value. The run deserializes real streams through readers that fragment (1-byte, prime, mixed, pseudo-random sizes, Interrupted, BufReader) and fail (error or EOF) at every/sampled position.',
+   note='the full-copy reader is assumed to touch its source only through read_exact (true of the modelled code: ReaderWithPos); partially built values on the failure path are runtime behaviour exercised, not proved.',
+   design='5/C14'),
+})
+
 NOT_YET = {
 }
 
